@@ -334,7 +334,7 @@ func (e *Env) zeroValue(t types.Type, nilOK bool) Value {
 		if isErrorType(t) {
 			return ErrV{Nil: TrueT, Kind: IntC(0), Type: IntC(0), Off: IntC(0)}
 		}
-		return AbsV{App("nil_"+absSortName(t), UnS(absSortName(t))), t}
+		return Scalar{App("nil_"+absSortNameV(t), UnS(absSortNameV(t))), t}
 	case *types.Pointer:
 		return PtrV{Alloc: 0, Nil: TrueT, Typ: t}
 	}
@@ -392,6 +392,9 @@ func (e *Env) ident(id *ast.Ident) Value {
 		}
 	}
 	if e.contract {
+		if v, ok := specConstsNow[id.Name]; ok {
+			return UConst{constant.MakeInt64(v)}
+		}
 		if v, ok := e.x.ghostValue(e, id.Name); ok {
 			return v
 		}
@@ -780,22 +783,25 @@ func (e *Env) binop(op token.Token, a, b Value, at ast.Node) Value {
 		unsupported("%s: binary %s on %T and %T", e.where, op, a, b)
 	}
 	if sa.T.S != sb.T.S {
-		// mathint mixes with Int-represented values in contracts
-		if e.contract && sa.T.S.K != sb.T.S.K {
-			sa = Scalar{e.toIntTerm(sa), mathIntType}
-			sb = Scalar{e.toIntTerm(sb), mathIntType}
-		} else if sa.T.S.K == KBV && sa.T.Op == "const" && sb.T.S == IntS && !isBitop(op) {
+		sameType := types.Identical(sa.Typ.Underlying(), sb.Typ.Underlying()) && !isMathInt(sa.Typ) && !isMathInt(sb.Typ)
+		switch {
+		case sameType && sa.T.S.K == KBV && sa.T.Op == "const" && sb.T.S == IntS && !isBitop(op):
 			sa = Scalar{BV2Nat(sa.T), sb.Typ}
-		} else if sb.T.S.K == KBV && sb.T.Op == "const" && sa.T.S == IntS && !isBitop(op) {
+		case sameType && sb.T.S.K == KBV && sb.T.Op == "const" && sa.T.S == IntS && !isBitop(op):
 			sb = Scalar{BV2Nat(sb.T), sa.Typ}
-		} else if sa.T.S.K == KBV && sb.T.S == IntS {
+		case sameType && sa.T.S.K == KBV && sb.T.S == IntS:
 			sb = Scalar{Int2BV(sa.T.S.W, sb.T), sa.Typ}
-		} else if sb.T.S.K == KBV && sa.T.S == IntS {
+		case sameType && sb.T.S.K == KBV && sa.T.S == IntS:
 			sa = Scalar{Int2BV(sb.T.S.W, sa.T), sb.Typ}
-		} else if e.contract {
+		case e.contract:
+			// contracts may mix integer types and mathint: compute mathematically
 			sa = Scalar{e.toIntTerm(sa), mathIntType}
 			sb = Scalar{e.toIntTerm(sb), mathIntType}
-		} else {
+		case sa.T.S.K == KBV && sb.T.S == IntS:
+			sb = Scalar{Int2BV(sa.T.S.W, sb.T), sa.Typ}
+		case sb.T.S.K == KBV && sa.T.S == IntS:
+			sa = Scalar{Int2BV(sb.T.S.W, sa.T), sb.Typ}
+		default:
 			unsupported("%s: operands of %s have different representations (%s, %s)", e.where, op, sa.Typ, sb.Typ)
 		}
 	}
@@ -971,7 +977,7 @@ func (e *Env) intBitop(op token.Token, a, b Scalar, typ types.Type) Value {
 func (e *Env) bvEmbed(op token.Token, a, b Scalar, typ types.Type) Value {
 	ii, ok := intInfoOf(typ)
 	if !ok || isMathInt(typ) {
-		unsupported("%s: bitwise %s on %s", e.where, op, typ)
+		unsupported("%s: bitwise %s on %s (operands %s : %s and %s : %s)", e.where, op, typ, truncate(a.T.String(), 80), a.Typ, truncate(b.T.String(), 80), b.Typ)
 	}
 	x, y := Int2BV(ii.W, a.T), Int2BV(ii.W, b.T)
 	switch op {
@@ -1065,6 +1071,10 @@ func (e *Env) equalValues(a, b Value) (*Term, bool) {
 			return v.Nil, true
 		case AbsV:
 			return Eq(v.T, App("nil_"+v.T.S.Name, v.T.S)), true
+		case Scalar:
+			if v.T.S.K == KUn {
+				return Eq(v.T, App("nil_"+v.T.S.Name, v.T.S)), true
+			}
 		case NilV:
 			return TrueT, true
 		}
@@ -1091,6 +1101,9 @@ func (e *Env) equalValues(a, b Value) (*Term, bool) {
 		}
 	case ArrayV:
 		vb, ok := b.(ArrayV)
+		if ok && (va.N < 0 || vb.N < 0) {
+			return Eq(va.T, vb.T), true
+		}
 		if ok {
 			var cs []*Term
 			if va.N <= 64 {
@@ -1198,9 +1211,23 @@ func (e *Env) sliceValue(base Value, lo, hi *Term, at ast.Node, baseExpr ast.Exp
 		base = SliceV{Alloc: p.Alloc, path: p.Path, Off: IntC(0), Len: IntC(arr.N), Cap: IntC(arr.N), Elem: arr.Elem, Nil: FalseT}
 	}
 	if arr, ok := base.(ArrayV); ok {
-		// array variable: must live in memory
-		sv := e.arrayPlace(baseExpr, arr)
-		base = sv
+		if e.contract {
+			// a specification-level array value: view it through a temporary allocation
+			a := e.x.alloc()
+			e.st.mem[a] = ArrayV{T: arr.T, N: -1, Elem: arr.Elem}
+			ln := IntC(arr.N)
+			if arr.N < 0 {
+				ln = hi
+				if ln == nil {
+					unsupported("%s: slicing an unbounded specification array needs an upper bound", e.where)
+				}
+			}
+			base = SliceV{Alloc: a, Off: IntC(0), Len: ln, Cap: ln, Elem: arr.Elem, Nil: FalseT}
+		} else {
+			// array variable: must live in memory
+			sv := e.arrayPlace(baseExpr, arr)
+			base = sv
+		}
 	}
 	b, ok := base.(SliceV)
 	if !ok {
